@@ -427,6 +427,12 @@ def oracle(case):
     cls, p, h, x = case["cls"], [float(v) for v in case["params"]], float(case["height"]), float(case["x"])
     if not hasattr(fl, cls):
         return False, f"class {cls} does not exist"
+    if case.get("degenerate"):
+        ok, _, d = check_degenerate(cls, p, h)
+        return ok, d
+    if case.get("built_with"):
+        ok, _, d = check_reparam(cls, [float(v) for v in case["built_with"]], p, h, lambda c, q: [(x, "replay")])
+        return ok, d
     term = make(cls, p, h)
     ok, d = check_point(cls, p, h, x, term)
     if not ok:
@@ -655,6 +661,19 @@ def correspond(ctx):
                 bad = next((x for x, v in pts if not check_point(cls, p, h, x, term, v)[0]), allx[0])
                 mism.append({"case": {"cls": cls, "params": p, "height": h, "x": bad}, "violation": True, "detail": detail,
                              "what": detail})
+    # ---- vertical edges of S / Z / Pi shapes; parameters re-assigned in place on an already evaluated object
+    for cls, p, h in degenerate_cases(ctx):
+        ok, x, d = check_degenerate(cls, p, h)
+        st.count("degenerate")
+        if not ok:
+            mism.append({"case": {"cls": cls, "params": p, "height": h, "x": x, "degenerate": True}, "violation": True,
+                         "detail": d, "what": d})
+    for cls, p1, p2, h in reparam_cases(ctx):
+        ok, x, d = check_reparam(cls, p1, p2, h, lambda c, q: xpoints(c, q, ctx.rng, 2))
+        st.count("reparam")
+        if not ok:
+            mism.append({"case": {"cls": cls, "params": p2, "height": h, "x": x, "built_with": p1}, "violation": True,
+                         "detail": d, "what": d})
     # ---- the registered shape classes are the ones the model covers
     fm = fl.settings.factory_manager
     reg = sorted(k for k in fm.term.constructors if k)
@@ -662,7 +681,95 @@ def correspond(ctx):
     return mism
 
 
+def param_names(cls):
+    import inspect
+    return [q for q in inspect.signature(getattr(fl, cls).__init__).parameters if q not in ("self", "name", "height")]
+
+
+def reparam_cases(ctx):
+    """a term object is evaluated, its parameters are assigned new values in place, and it is evaluated again: the second
+    evaluation must follow the NEW parameters (nothing derived from the old ones may be kept)"""
+    rng = ctx.rng
+    P = pools(rng)
+    for cls in CLASSES:
+        if cls in ("Discrete", "Constant"):
+            continue
+        got = 0
+        for _ in range(40):
+            cfg = [c for c in configs(cls, P[rng.choice(["nice", "dyadic"])], rng) if valid(cls, c)]
+            if len(cfg) < 2:
+                continue
+            p1, p2 = cfg[0], cfg[-1]
+            if p1 == p2:
+                continue
+            yield cls, p1, p2, rng.choice([1.0, 0.5])
+            got += 1
+            if got >= ctx.scale(3, 12):
+                break
+
+
+def check_reparam(cls, p1, p2, h, rng_x):
+    term = make(cls, p1, h)
+    xs1 = [x for x, _ in rng_x(cls, p1)]
+    for x in xs1[:6]:
+        impl(term, x)
+    impl_array(term, xs1[:6])
+    for name, v in zip(param_names(cls), p2):
+        setattr(term, name, float(v))
+    for x, _ in rng_x(cls, p2):
+        ok, d = check_point(cls, p2, h, x, term)
+        if not ok:
+            return False, x, f"after assigning new parameters {p2} to a {cls} built with {p1} and already evaluated: {d}"
+    return True, None, "ok"
+
+
+def degenerate_cases(ctx):
+    """vertical edges of the S / Z / Pi shapes (start == end): the first matching case of the documented definition"""
+    for s0 in (0.0, 0.25, -1.5, 2.0):
+        for h in (1.0, 0.5):
+            yield "SShape", [s0, s0], h
+            yield "ZShape", [s0, s0], h
+            yield "PiShape", [s0, s0, s0 + 1.0, s0 + 2.0], h
+            yield "PiShape", [s0 - 2.0, s0 - 1.0, s0, s0], h
+
+
+def doc_degenerate(cls, p, h, x):
+    if x != x:
+        return NAN
+    if cls == "SShape":
+        return 0.0 if x <= p[0] else h
+    if cls == "ZShape":
+        return h if x <= p[0] else 0.0
+    a, b, c, d = p
+    left = (0.0 if x <= a else 1.0) if a == b else float(doc("SShape", [a, b], 1.0, x))
+    right = (1.0 if x <= c else 0.0) if c == d else float(doc("ZShape", [c, d], 1.0, x))
+    return h * left * right
+
+
+def check_degenerate(cls, p, h):
+    term = make(cls, p, h)
+    pts = sorted(set(p))
+    xs = []
+    for q in pts:
+        xs += [float(np.nextafter(q, -INF)), q, float(np.nextafter(q, INF))]
+    xs += [pts[0] - 1.0, pts[-1] + 1.0, INF, -INF]
+    for x in xs:
+        v = impl(term, x)
+        want = doc_degenerate(cls, p, h, x)
+        if not ((v != v and want != want) or abs(v - want) <= 1e-9):
+            return False, x, f"{cls}{tuple(p)} height {h} (vertical edge): membership({x}) = {v!r}, the documented definition gives {want!r}"
+    return True, None, "ok"
+
+
 def search(ctx):
+    for cls, p, h in degenerate_cases(ctx):
+        ok, x, d = check_degenerate(cls, p, h)
+        if not ok:
+            return [({"cls": cls, "params": p, "height": h, "x": x, "degenerate": True}, d)]
+    for cls, p1, p2, h in reparam_cases(ctx):
+        ok, x, d = check_reparam(cls, p1, p2, h, lambda c, q: xpoints(c, q, ctx.rng, 2))
+        if not ok:
+            return [({"cls": cls, "params": p2, "height": h, "x": x, "built_with": p1}, d)]
     for cls, p, h, xs, pool in stream(ctx):
         term = make(cls, p, h)
         for x, _ in xs:
